@@ -62,9 +62,21 @@ MANIFEST = {
             "operations included, INSTALLING while fewer than max(c,1) ticks were delivered, RUNNING + GOOD at that tick; refinement "
             "C13_run_application); SoftwareManager.install and SoftwareManager.uninstall are TRANSLATED statement by statement (guard, constructor, eviction, "
             "list / route / table writes, start / install / forced CLOSED, in source order) and proved equal AS WHOLE METHODS to the model's "
-            "installSvc / installApp / uninstall for every node state in which no object is both a service and an application (a "
-            "hypothesis, not proved preserved), with programs sharing a (port, protocol) key: the last installer owns the slot, "
+            "installSvc / installApp / uninstall on EVERY node reachable by model operations from registries without software, without "
+            "hypothesis (second shift: the invariant RegWF - uids handed out once, no object both a service and an application, every "
+            "entry of `software` stored under its object's own name, so `software.name == software_name` for the popped object - is "
+            "proved for empty registries and preserved by all 18 operations: C13_regwf_step, C13_gen_methods_reachable), "
+            "with programs sharing a (port, protocol) key: the last installer owns the slot, "
             "uninstalling a non-owner keeps it, uninstalling the owner empties it although another program with the key is installed. "
+            "RELAY (second shift): receive() and send() of EVERY shipped class - FTP client / server and the C2 suite included - are "
+            "TRANSLATED through their class chains into programs (Gen/SoftwareRelay); a checker proved sound (quietChain_sound) shows on "
+            "the translated programs, for every payload, every payload test and every callee result, that with _can_perform_action() "
+            "False the method returns False and does nothing but set the FTP classes' `_active` flag (C13_receive_not_running, "
+            "C13_send_not_running; one listed exception: DatabaseService.send has no guard of its own and is called only from its guarded "
+            "receive); the C2 relay's dispatch and the callers of the C2 / FTP payload handlers are pinned (handlers are reached only "
+            "through receive); a RUNNING FTP client adds a connection exactly for a successful PORT and terminates exactly for a "
+            "successful QUIT, an FTP server processes requests only (on the translated code). What RUNNING FTP / C2 software does "
+            "inside its handlers (file transfer, command execution) is NOT modelled. "
             "CONNECTION BOOKKEEPING (add_connection / terminate_connection): health becomes OVERWHELMED exactly when a connection is "
             "requested at max_sessions; the table never exceeds max_sessions. "
             "Tie: guard tables, validators, countdown idioms, enum values, defaults, the shipped-class table (every receive() "
@@ -75,24 +87,31 @@ MANIFEST = {
             "modelled classes, real NIC/ARP/HostNode/SessionManager/SoftwareManager transport); R-conn and R-bot on real instances; R-load builds generated scenarios THROUGH "
             "PrimaiteGame.from_config (defaults section with boundary values, per-service options, applications) and diffs the loaded "
             "attributes against the specification and requests / whole-game steps / run-time installs against the model instantiated with "
-            "the CONFIGURED durations (enumerated over the value pool + random).",
+            "the CONFIGURED durations (enumerated over the value pool + random; second shift: also scenarios with 2-3 hosts on a switch "
+            "with links, database-service listed on a server and a database client on another host, compared once per host); R-relay: "
+            "two real hosts with the real FTP transfer and C2 exchange, every real receive() / send() call of a fully translated class "
+            "compared with its translated chain run on the observed environment, plus implementation-side oracles (not running => "
+            "nothing handled, nothing sent, state unchanged; open ports = ports of RUNNING slot owners; FTP client bookkeeping). "
+            "When many traces disagree at once the shrinker works on the first trace per signature only and is time-boxed (every trace "
+            "is still run and compared).",
     "note": "C13-specific: payload processing is modelled for DNS, NTP and web client/server and the three attack loops — FTP client / "
-            "server (STOR / RETR, files), database service / client, terminal (C16) are followed only as far as routing and the running-guard; of the C2 suite the "
+            "server (STOR / RETR, files), database service / client, terminal (C16) are followed only as far as routing and the running-guard (the guard on the TRANSLATED receive / send of every class, the FTP client's connection bookkeeping; not the handlers); of the C2 suite the "
             "connection state machine is modelled (one tick, keep-alive handlers, command gate; the peer and the network enter as the "
-            "input `reply`), the command relay and the two-node keep-alive exchange are not; the web server's database access enters as a verdict (is a database client "
+            "input `reply`), of the command relay the guard, the dispatch and the handler callers (what the handlers execute is not modelled; the rig runs the real exchange between two hosts under oracles), the two-node keep-alive exchange as a model is not; the web server's database access enters as a verdict (is a database client "
             "installed, what connection it hands out, do its queries succeed: C17's subject), the bots' random trials as inputs (C19's); "
             "URLs are taken as parsed (urlparse is trusted); two-node exchanges are "
             "modelled over an IDEAL transport (both nodes ON, peer's frame filter accepts; ARP, links, NIC state, ACLs are C08/C12/C18's "
             "subject) and the rig uses instant power transitions there; the exchange started by an NTP client inside "
             "Node.apply_timestep is modelled at its place in the per-service loop only while no power countdown is pending; "
             "termination of the model's transport is proved for nodes with at most 61 installed programs (fuel 4096); "
-            "class-specific `execute`/`configure` requests, C2Beacon closing itself, DatabaseService's nested FTPClient install, "
-            "are not covered; of the loader only the defaults block of the "
+            "class-specific `execute`/`configure` requests, C2Beacon closing itself, are not covered; DatabaseService's nested FTPClient install is "
+            "described to the model as two consecutive installs in node.services order (the one order the model cannot reproduce, that of "
+            "`software`, is not compared there); of the loader only the defaults block of the "
             "services loop is translated (install_duration has no configuration source: class default only; per-service `fixing_duration` "
             "options are C14/C20's; float / underscore numerals of the defaults section are outside the value model); router/firewall frame paths only as far "
             "as the hand-over test to the session manager.",
     "technique": "Lean 4 theorems over executable lifecycle, registry, receive-path and payload models; models tied by regenerated "
-                 "tables, by source-to-Lean translation of the software manager's functions and by three differential rigs",
+                 "tables, by source-to-Lean translation of the software manager's functions and methods, of the loader's defaults block and of every class's receive / send, and by differential rigs (R-svc, R-load, R-recv, R-relay, R-conn, R-bot, R-c2)",
     "design_ref": "5/C13",
 }
 MODULES = ["PrimaiteModel.Props.C13", "PrimaiteModel.Lemmas.RegistriesRep", "PrimaiteModel.Props.C13Recv", "PrimaiteModel.Props.C13Bots", "PrimaiteModel.Props.C13C2",
